@@ -96,6 +96,10 @@ Fixpoint m_unpack (tys : list ty3) (args : list pyobj) : result (list pyobj) :=
 Definition m_unwrap1 (o : pyobj) : pyobj :=
   match o with PNodes [n] => PVal (snd n) | _ => o end.
 
+(* thread a nodelist through the segments of a query *)
+Fixpoint run_segs (F : seg -> list node -> result (list node)) (q : list seg) (ns : list node) : result (list node) :=
+  match q with [] => Ok ns | sg :: q' => do ns' <- F sg ns; run_segs F q' ns' end.
+
 Section Eval.
   Variable cfg : envcfg.
 
@@ -178,8 +182,8 @@ Section Eval.
                end) ss) vs) ns
     end.
 
-  Fixpoint m_segs (root : json) (q : list seg) (ns : list node) : result (list node) :=
-    match q with [] => Ok ns | sg :: q' => do ns' <- m_seg root sg ns; m_segs root q' ns' end.
+  Definition m_segs (root : json) (q : list seg) (ns : list node) : result (list node) :=
+    run_segs (m_seg root) q ns.
 
   (* JSONPathQuery.find *)
   Definition m_find (q : query) (v : json) : result (list node) := m_segs v q [([], v)].
